@@ -7,6 +7,7 @@ package main
 import (
 	"bytes"
 	"fmt"
+	"github.com/cosmos/iavl/verifcheck/ref"
 
 	"github.com/cosmos/iavl/verifcheck/vstore"
 )
@@ -93,10 +94,26 @@ func survivingHistory(cfg Cfg, hist []Op) (surv []Op, rolledBack bool) {
 	return surv, rolledBack
 }
 
+// nodeRecords returns the tree-node records in canonical form. A root record that is a reference to the root
+// (v,1) of an older version is resolved the way the library resolves it (GetRoot): when (v,1) is gone and the
+// re-keyed (v,0) exists, the reference means (v,0). Two stores that differ only in which of the two spellings a
+// reference uses are the same tree for every reader, so the twin comparison must not tell them apart.
 func nodeRecords(kvs []vstore.KV) []vstore.KV {
+	have := map[string]bool{}
+	for _, kv := range kvs {
+		if len(kv.K) > 0 && kv.K[0] == 's' {
+			have[string(kv.K)] = true
+		}
+	}
 	var out []vstore.KV
 	for _, kv := range kvs {
 		if len(kv.K) > 0 && kv.K[0] == 's' {
+			if nk, ok := ref.ParseNodeKey(kv.V); ok && nk.Nonce == 1 && !have[string(kv.V)] {
+				alt := ref.NodeKey{Version: nk.Version, Nonce: 0}.Bytes()
+				if have[string(alt)] {
+					kv = vstore.KV{K: kv.K, V: alt}
+				}
+			}
 			out = append(out, kv)
 		}
 	}
